@@ -251,3 +251,39 @@ Theorem C13_conv_from_rs_matches_model dbg w lg : 0 <= lg -> w = 2 ^ lg ->
     match Convert.U_try_from_iint dbg pb w n int with Ret r => Done r | Panic => Panicked end.
 Proof. exact (conv_C13_from_match_model dbg w lg). Qed.
 Print Assumptions C13_conv_from_rs_matches_model.
+(* ---- tie to the source, bnum -> bnum: the four BTryFrom macros of /repo/src/buint/convert.rs (uint_try_from_uint!, uint_try_from_int!,
+   int_try_from_uint!, int_try_from_int!; source $From<$N>: digit width ow, m digits; target Self: digit width w, n digits; the invocation
+   lists of mixed_try_from! are checked) and From<bool> / From<char>, REGENERATED on every run (Generated/XcastGen.v, tools/rs2v_xcast.py),
+   compute exactly the model's U_btry_from_U .. I_btry_from_I / U_conv_from_bool .., for both values of the debug flag: for a well-formed
+   source no ExpType subtraction underflows (`Self::BITS - 1` needs a target with at least one digit).  `Self::cast_from(from)` inside
+   them is the model's Cast.cast, whose own tie is C09_xcast_rs_matches_model.  The last conjunct is the model's dispatcher
+   Convert.btry_from, which the `btry_from` operation of the C13 table runs. ---- *)
+From Bnum.Generated Require Import XcastGen.
+From Bnum.Proofs Require Import XcastGenTieC13.
+Theorem C13_xcast_rs_matches_model w ow : 0 < w -> 0 < ow ->
+  (forall dbg n m from fuel, wf ow m from ->
+     XcastGen.U_btry_from_U dbg w (Z.of_nat n) fuel ow (Z.of_nat m) from =
+     match Convert.U_btry_from_U dbg ow from w n with Ret r => Done r | Panic => Panicked end) /\
+  (forall dbg n m from fuel, wf ow m from ->
+     XcastGen.U_btry_from_I dbg w (Z.of_nat n) fuel ow (Z.of_nat m) from =
+     match Convert.U_btry_from_I dbg ow from w n with Ret r => Done r | Panic => Panicked end) /\
+  (forall dbg n m from fuel, wf ow m from -> (0 < n)%nat ->
+     XcastGen.I_btry_from_U dbg w (Z.of_nat n) fuel ow (Z.of_nat m) from =
+     match Convert.I_btry_from_U dbg ow from w n with Ret r => Done r | Panic => Panicked end) /\
+  (forall dbg n m from fuel, wf ow m from -> (0 < n)%nat ->
+     XcastGen.I_btry_from_I dbg w (Z.of_nat n) fuel ow (Z.of_nat m) from =
+     match Convert.I_btry_from_I dbg ow from w n with Ret r => Done r | Panic => Panicked end) /\
+  (forall n b fuel, XcastGen.U_conv_from_bool w (Z.of_nat n) fuel b = Done (Convert.U_conv_from_bool n b)) /\
+  (forall n b fuel, XcastGen.I_conv_from_bool w (Z.of_nat n) fuel b = Done (Convert.I_conv_from_bool n b)) /\
+  (forall n c fuel, XcastGen.U_conv_from_char w (Z.of_nat n) fuel c =
+     match Convert.U_conv_from_char w n c with Ret r => Done r | Panic => Panicked end) /\
+  (forall dbg (ss ds : bool) n m from fuel, wf ow m from -> (0 < n)%nat ->
+     (match ss, ds with
+      | false, false => XcastGen.U_btry_from_U
+      | true, false => XcastGen.U_btry_from_I
+      | false, true => XcastGen.I_btry_from_U
+      | true, true => XcastGen.I_btry_from_I
+      end) dbg w (Z.of_nat n) fuel ow (Z.of_nat m) from =
+     match Convert.btry_from dbg ow w n ss ds from with Ret r => Done r | Panic => Panicked end).
+Proof. exact (xcast_C13_match_model w ow). Qed.
+Print Assumptions C13_xcast_rs_matches_model.
